@@ -11,6 +11,9 @@ use crate::{
 
 use super::Version;
 
+#[cfg(cosmian_cover_crypt_verif)]
+mod verif_view;
+
 #[derive(Clone, PartialEq, Eq, Debug)]
 pub struct AccessStructure {
     version: Version,
